@@ -180,6 +180,7 @@ func ruleST4(c *Ctx) {
 	if red == nil {
 		return
 	}
+	c.probeErrorsReported(red)
 	n := 0
 	var isErgoJoin func(x ssa.Value, d int) bool
 	isErgoJoin = func(x ssa.Value, d int) bool {
@@ -631,4 +632,62 @@ func (c *Ctx) startDirUses(src ssa.Value, search *ssa.Function) []string {
 		}
 	}
 	return problems
+}
+
+// probeErrorsReported (a clause of ST4): the upward search may walk past a level only when the probe said "nothing
+// there". A probe that failed for another reason - EACCES on the nearer .ergo, EIO on a dead mount - must end the
+// search with that error; taking it for "not here" makes every command silently use an outer project's store. So for
+// every os.Stat/Lstat in the search there is a test errors.Is(<that call's own error>, os.ErrNotExist) (or
+// os.IsNotExist of it) whose false edge leads only to failing returns.
+func (c *Ctx) probeErrorsReported(red *ssa.Function) {
+	k := 0
+	for _, g := range append([]*ssa.Function{red}, c.unitOf(red)...) {
+		for _, call := range callsNamed(g, "os.Stat", "os.Lstat") {
+			cv, ok := call.(*ssa.Call)
+			if !ok {
+				continue
+			}
+			k++
+			var errv ssa.Value
+			if refs := cv.Referrers(); refs != nil {
+				for _, r := range *refs {
+					if ex, ok := r.(*ssa.Extract); ok && ex.Index == 1 {
+						errv = ex
+					}
+				}
+			}
+			okProbe := false
+			for _, bf := range branchFacts(g) {
+				if len(bf.A.Env) != 0 || bf.A.Kind != "bool" || bf.Holds || errv == nil {
+					continue
+				}
+				cl, _ := callOf(bf.A.X)
+				if cl == nil {
+					continue
+				}
+				n := calleeFullName(&cl.Call)
+				isNotExist := n == "os.IsNotExist" && len(cl.Call.Args) == 1 || n == "errors.Is" && len(cl.Call.Args) == 2 && isGlobalLoad(cl.Call.Args[1], "ErrNotExist")
+				if !isNotExist || !(resolve(cl.Call.Args[0]) == resolve(errv) || holdsValue(cl.Call.Args[0], errv)) {
+					continue
+				}
+				// the "some other error" edge only fails
+				failing := true
+				for b := range reach(bf.E.To(), nil, nil) {
+					for _, in := range b.Instrs {
+						if r, ok := in.(*ssa.Return); ok && !c.definitelyFails(g, r) {
+							failing = false
+						}
+					}
+				}
+				// (the edge may rejoin the loop only through failing returns: a back edge to the walk means "keep going")
+				if failing {
+					okProbe = true
+				}
+			}
+			curEnv = nil
+			c.check(okProbe, c.Name(g), fmt.Sprintf("probe-error-reported#%d", k), c.Pos(cv.Pos()),
+				"a probe that fails for a reason other than not-exist ends the search with an error",
+				"the error of this probe is never tested against os.ErrNotExist with the other errors ending the search (the test that is there looks at another variable, or every failure is taken for `nothing here`): when the nearer .ergo cannot be examined (permission denied, I/O error) the walk goes on upwards and the command silently operates on an enclosing project's store")
+		}
+	}
 }
